@@ -677,7 +677,7 @@ def rule_r7(facts, col, bodies=None):
                                 if cb is not None:
                                     cc = {b2 for b2, t2 in cb.calls_to(CANCEL)}
                                     rets = set(cb.return_blocks())
-                                    if cc and not (cb.reachable(0, avoid=cc) & rets):
+                                    if cc and (0 in cc or not (cb.reachable(0, avoid=cc) & rets)):
                                         via_inspect = True
             err_t = ws.err_edge[1]
             r = body.reachable(err_t, avoid=cancels) if err_t not in cancels else set()
